@@ -3,7 +3,8 @@ C28 — Range canonicalisation preserves the requested byte set.
 
 Property theorems only.  Model: `SquidModel.Range.Model` (strtoll/httpHeaderParseOffset, Range<int64_t>, strListGetItem,
 parseBytePos, HttpHdrRangeSpec::parseInit/canonize/mergeWith, HttpHdrRange::parseInit/getCanonizedSpecs/merge/canonize), as of
-squid commit cc9716a (byte positions are `1*DIGIT` ending at the item boundary; `last_pos + 1` cannot overflow);
+squid commits cc9716a (byte positions are `1*DIGIT` ending at the item boundary; `last_pos + 1` cannot overflow) and 43aac5c
+(`strListGetItem` skips VT/FF in front of an item like the other white space it trims);
 lemmas: `Range.CanonLemmas`, `Range.ParseLemmas`, `Range.RfcLemmas`, `Range.HeaderLemmas`; constants and the list-splitting
 byte sets are regenerated from the running code into `SquidModel.Gen.Range`.
 
@@ -12,9 +13,9 @@ All statements are for every header value (any length), every number of specs an
 
 The three parts of the property text: (1) canonical ranges are non-empty, inside the representation and cover exactly the
 requested bytes — `canon_sound_complete`, `rfc_header_end_to_end`; (2) a header with any syntactically invalid spec is ignored
-entirely — `invalid_spec_ignores_header` (an *item* is what `strListGetItem` cuts out: the remaining known finding
-C28-list-whitespace is about that cutting, VT/FF counting as list white space); (3) no input triggers arithmetic overflow —
-`no_overflow`.
+entirely — `invalid_spec_ignores_header` (an *item* is what `strListGetItem` cuts out between unquoted commas, trimmed of list
+white space) together with `list_ends_only_at_end_of_header` (no element is skipped); (3) no input triggers arithmetic
+overflow — `no_overflow`.
 
 Historical note: before cc9716a, (2) and (3) were false of the real code (`bytes=0-5abc` was served as `0-5`;
 `bytes=0-9223372036854775807` overflowed `last_pos + 1`). Both inputs are now `example`s of the repaired behaviour below and
@@ -107,6 +108,12 @@ theorem invalid_spec_ignores_header (v : Bytes) (f : Bytes) (n : Nat)
     · rw [hc]
     · exact absurd hc (collect_no_fault _ _ e)
 
+/-- The item loop never stops early: it ends only when nothing but commas and list white space (SP HT LF VT FF CR) is left, so
+every element of the header is looked at. (Before squid commit 43aac5c a VT/FF-only element ended the list silently.) -/
+theorem list_ends_only_at_end_of_header (fuel : Nat) (pos : Bytes) (h : itemsOf (fuel + 1) pos = []) :
+    ∀ c ∈ pos, isListLeading c = true :=
+  itemsOf_nil h
+
 /-- A header that does not start with `bytes=` (any letter case) is ignored. -/
 theorem other_unit_ignored (v : Bytes) (h : hasBytesPrefix v = false) : parseHeader v = .ok none := by
   simp [parseHeader, h]
@@ -170,8 +177,9 @@ example : parseHeader [98,121,116,101,115,61, 48,120,49,48,45,50,48] = .ok none 
 example : parseHeader [98,121,116,101,115,61, 45,53,120] = .ok none := by decide
 example : parseHeader [98,121,116,101,115,61, 53,45,54,45,55] = .ok none := by decide
 example : parseHeader [98,121,116,101,115,61, 49,45,32,53] = .ok none := by decide
--- still open (known finding C28-list-whitespace): a VT-only list element ends the list, "bytes=1-2,\v,5-6" yields only 1-2
-example : parseHeader [98,121,116,101,115,61, 49,45,50,44,11,44,53,45,54] = .ok (some [⟨1, 2⟩]) := by decide
+-- a VT/FF-only list element is an empty element (squid commit 43aac5c; it used to end the list): "bytes=1-2,\v,5-6", "bytes=1-2,\f,junk"
+example : parseHeader [98,121,116,101,115,61, 49,45,50,44,11,44,53,45,54] = .ok (some [⟨1, 2⟩, ⟨5, 2⟩]) := by decide
+example : parseHeader [98,121,116,101,115,61, 49,45,50,44,12,44,106,117,110,107] = .ok none := by decide
 -- ignored: "bytes=1-2,5", "bytes=5-4", "bytes=", "items=0-1", "bytes=55,-3", "bytes=0-9223372036854775808"
 example : parseHeader [98,121,116,101,115,61, 49,45,50,44,53] = .ok none := by decide
 example : parseHeader [98,121,116,101,115,61, 53,45,52] = .ok none := by decide
